@@ -67,13 +67,20 @@ def main():
     seen, failures, samples = set(), [], []
     kinds = collections.Counter()
     evaluations = rejected = 0
+    cfgs = []
     for _ in range(n):
         name = rng.choice(names)
         cfg = mg.random_cfg(rng, name)
         if cfg["align"] == "aa" and name in heavy:
             cfg["align"] = "none"
+        cfgs.append(cfg)
+    import multiprocessing as mp
+
+    with mp.get_context("fork").Pool(min(12, max(1, n // 8))) as pool:
+        results = pool.map(check_model, cfgs, chunksize=4)
+    for cfg, res in zip(cfgs, results):
+        name = cfg["reaction"]
         key = json.dumps(cfg, sort_keys=True)
-        res = check_model(cfg)
         evaluations += 1
         if res is None:
             rejected += 1
